@@ -2,25 +2,27 @@
 """seed_matrix.py [seed-dir-prefix ...]: applies each confirmed seeded change in /verif/seeded to /repo (git apply), runs the quick
 check of the property it breaks, records the outcome, and reverts (git checkout -- .).  Writes /verif/seeded/MATRIX.json."""
 import glob, json, os, re, subprocess, sys, time
-os.chdir('/verif')
+os.chdir(os.path.dirname(os.path.dirname(os.path.abspath(__file__))))
+REPO = os.environ.get('MATRIX_REPO', '/repo')
+ENV = dict(os.environ, VERIF_REPO=REPO)
 sel = sys.argv[1:]
 out = {}
 try:
     out = json.load(open('seeded/MATRIX.json'))
 except Exception:
     pass
-assert subprocess.run('git -C /repo status --porcelain', shell=True, capture_output=True, text=True).stdout.strip() == '', '/repo not clean'
+assert subprocess.run('git -C %s status --porcelain' % REPO, shell=True, capture_output=True, text=True).stdout.strip() == '', REPO + ' not clean'
 for d in sorted(glob.glob('seeded/C*-*')):
     name = os.path.basename(d)
     if sel and not any(name.startswith(s) for s in sel):
         continue
     prop = name.split('-')[0]
-    p = subprocess.run(['git', '-C', '/repo', 'apply', os.path.abspath(d + '/patch.diff')], capture_output=True, text=True)
+    p = subprocess.run(['git', '-C', REPO, 'apply', os.path.abspath(d + '/patch.diff')], capture_output=True, text=True)
     if p.returncode != 0:
         out[name] = dict(outcome='patch does not apply', detail=p.stderr[-300:]); continue
     t0 = time.time()
     try:
-        r = subprocess.run(['./check', prop], capture_output=True, text=True, timeout=1500)
+        r = subprocess.run(['./check', prop], capture_output=True, text=True, timeout=1500, env=ENV)
         txt = r.stdout
         viol = re.findall(r'^VIOLATION property=\S+ replay=(\S+)(.*)$', txt, re.M)
         failed = re.findall(r'failed obligation (\S+):', txt)
@@ -30,6 +32,6 @@ for d in sorted(glob.glob('seeded/C*-*')):
                          replayed_concrete_input=any(s.strip() == '' for (_, s) in viol), undecided_reason=[u[:200] for u in und[:2]],
                          wall_s=round(time.time() - t0, 1))
     finally:
-        subprocess.run('git -C /repo checkout -- . && git -C /repo clean -fdq crates', shell=True)
+        subprocess.run('git -C %s checkout -- . && git -C %s clean -fdq crates' % (REPO, REPO), shell=True)
     print(name, out[name]['outcome'], out[name].get('failed_obligations'), out[name].get('undecided_reason'))
     json.dump(out, open('seeded/MATRIX.json', 'w'), indent=1, sort_keys=True)
